@@ -89,6 +89,8 @@ class GenCfg:
     corr_base: int = 100             # first correlation id of rank 0
     corr_stride: int = 100           # distance between the id ranges of consecutive ranks (0: every rank uses the same ids)
     p_unlisted_launch: float = 0.0   # a launch goes through a runtime call that is not in HTA's launch-name list
+    big_stream_marker: bool = False  # Context Sync records carry Kineto's unsigned 'no stream' marker 4294967295 instead of -1
+    p_nocorr_head: float = 0.0       # a device activity at the head of the trace carries no correlation id at all
     loner: bool = False              # an extra host thread with ONE childless operator that outlasts everything else
     p_overhang: float = 0.0          # an operator ends 1-2 us BEFORE its last child (timer glitch: not properly nested any more)
     p_nested_annotation: float = 0.0 # a child slot of an operator becomes a user annotation that wraps further operators
@@ -114,7 +116,7 @@ class _Sim:
         self.rng, self.cfg, self.rank = rng, cfg, rank
         self.pid = 4000 + rank
         self.ev: List[Dict[str, Any]] = []
-        self.corr = cfg.corr_base + cfg.corr_stride * rank
+        self.corr = cfg.corr_base + cfg.corr_stride * rank - 1      # next_corr() pre-increments: the first id is corr_base itself
         self.last_end: Dict[int, int] = {}      # per stream: end of last placed activity
         self.last_start: Dict[int, int] = {}
         self.launched: Dict[int, List[int]] = {}  # per stream: ends of activities launched so far
@@ -215,7 +217,8 @@ class _Sim:
         s1 = max(s0, min(end, max(wait_end, s0)))
         e = {"ph": "X", "cat": "cuda_sync", "name": "Context Sync", "pid": 0, "tid": -1, "ts": s0, "dur": s1 - s0,
              "args": {"cuda_sync_kind": "Context Sync", "wait_on_stream": -1, "wait_on_cuda_event_record_corr_id": -1,
-                      "wait_on_cuda_event_id": -1, "stream": -1, "correlation": corr, "device": 0, "context": 1}}
+                      "wait_on_cuda_event_id": -1, "stream": 4294967295 if self.cfg.big_stream_marker else -1, "correlation": corr,
+                      "device": 0, "context": 1}}
         self.ev.append(e)
         return end
 
@@ -409,7 +412,9 @@ def gen_rank(rng: random.Random, cfg: GenCfg, rank: int) -> RankTrace:
             st = sim.last_start[s] + 1
         sim.last_start[s] = st
         d = rng.choice(cfg.kdur)
-        sim.dev("kernel", rng.choice(K_COMP), s, st, d, sim.next_corr(), queued=0)
+        ev = sim.dev("kernel", rng.choice(K_COMP + K_COMM), s, st, d, sim.next_corr(), queued=0)
+        if rng.random() < cfg.p_nocorr_head:
+            del ev["args"]["correlation"]
         sim.last_end[s] = st + d
         tt = st
     threads = [sim.main_thread(main_tid)]
